@@ -10,7 +10,8 @@ import random
 
 import z3
 
-from vf.symx import (Engine, SInt, rebind, smin, smax, srange, toint)
+from vf.symx import (Engine, SInt, rebind, smin, smax, srange, toint,
+                     unformat)
 from vf.common import real
 
 PID = "C19"
@@ -33,10 +34,11 @@ OUTSIDE = ["HTTP transport, retries, ETag", "h5py on top of the file object "
            "chunk_size > 4, keep_chunks > 4 (the code has no constants that "
            "depend on them)", "negative positions", "keep_chunks == 0",
            "thread interleavings"]
-STUBS = ["download_range(start, stop) = RFC 7233 server: valid range -> "
-         "blob[start:min(stop,L)]; last < first (syntactically invalid) -> "
-         "whole blob (Range header ignored, 200); first >= L -> 416 error "
-         "body (foreign bytes)", "np.int64 = identity on mathematical ints"]
+STUBS = ["requests session = RFC 7233 server fed by the Range header text "
+         "that the real download_range formats (symbolic ints travel through "
+         "the text as placeholders): valid range -> blob[first:min(last+1,L)]"
+         "; last < first (syntactically invalid) -> whole blob (Range header "
+         "ignored, 200); first >= L -> 416 error body (foreign bytes)", "np.int64 = identity on mathematical ints"]
 ASSUMPTIONS = ["bytes are modelled by provenance (offset segments), i.e. the "
                "check is about which offsets are returned",
                "a read at position p with size n must return "
@@ -106,19 +108,9 @@ def make_file(L, cs, keep):
     for name in ["read", "read_range_cached", "get_cache_chunk", "seek",
                  "tell"]:
         cls_ns[name] = rebind(real(M, "HTTPFile." + name), **ns)
-    Le = toint(L)
 
-    def download_range(self, start, stop):
-        s, e = toint(start), toint(stop)
-        self.requests.append((s, e))
-        # RFC 7233 behaviour of the stub server
-        if Engine.cur.branch(e <= s):
-            return Blob([("blob", z3.IntVal(0), Le)])      # header ignored
-        if Engine.cur.branch(s >= Le):
-            return Blob([(FOREIGN, z3.IntVal(0), z3.IntVal(7))])   # 416 body
-        hi = z3.If(e > Le, Le, e)
-        return Blob([("blob", s, hi)])
-    cls_ns["download_range"] = download_range
+    cls_ns["download_range"] = rebind(real(M, "HTTPFile.download_range"),
+                                      **ns)
     cls_ns["length"] = property(lambda self: self._len)
     cls = type("HTTPFile_sym", (object,), cls_ns)
     f = cls()
@@ -127,8 +119,48 @@ def make_file(L, cs, keep):
     f._len = L
     f._pos = 0
     f.cache = {}
-    f.requests = []
+    f.url = "http://verif.invalid/x.rtdc"
+    f.session = SymServer(L)
     return f
+
+
+class SymResp:
+    def __init__(self, content, status):
+        self.content = content
+        self.status_code = status
+        self.headers = {}
+        self.reason = ""
+
+
+class SymServer:
+    """RFC 7233 range server over the abstract blob; the Range header text
+    produced by the real download_range is parsed back (unformat)"""
+
+    def __init__(self, L):
+        self.L = L
+        self.requests = []
+
+    def get(self, url, headers=None, **kw):
+        Le = toint(self.L)
+        whole = Blob([("blob", z3.IntVal(0), Le)])
+        if not headers or "Range" not in headers:
+            return SymResp(whole, 200)
+        unit, spec = headers["Range"].split("=", 1)
+        a, b = spec.split("-", 1)
+        if unit != "bytes":
+            return SymResp(whole, 200)
+        first, last = toint(unformat(a)), toint(unformat(b))
+        self.requests.append((first, last))
+        if Engine.cur.branch(last < first):
+            return SymResp(whole, 200)                   # header ignored
+        if Engine.cur.branch(first >= Le):
+            return SymResp(Blob([(FOREIGN, z3.IntVal(0), z3.IntVal(7))]),
+                           416)
+        hi = z3.If(last + 1 > Le, Le, last + 1)
+        return SymResp(Blob([("blob", first, hi)]), 206)
+
+    def close(self):
+        pass
 
 
 def bytes_ok(data, p, e):
@@ -339,13 +371,24 @@ def _scenario(params, values):
                 pre=params.get("pre"), pos=values.get("pos", 0), oplist=ops)
 
 
+def _overshoots(msg, sc):
+    import re
+    m = re.match(r"read\((-?\d+)\) at pos (\d+) of (\d+) bytes", msg)
+    return bool(m) and int(m.group(2)) + int(m.group(1)) > int(m.group(3))
+
+
 def classify(msg, sc):
     if "KeyError" in msg:
         return "get_cache_chunk|keep_chunks-evicts-requested-chunk|KeyError"
-    if "read(-1)" in msg:
-        return "read|size<0|not-all-remaining-bytes"
     if "returned" in msg:
-        return "read|past-end-of-resource|wrong-bytes"
+        ops = sc["oplist"]
+        p = sc["pos"]
+        over = any(k == "read" and a > 0 for k, a in ops) and \
+            "read(-1)" not in msg and _overshoots(msg, sc)
+        if "read(-1)" in msg:
+            return "read|size<0|wrong-bytes"
+        return "read|past-end-of-resource|wrong-bytes" if over else \
+            "read|within-resource|wrong-bytes"
     if "cache holds" in msg:
         return "get_cache_chunk|cache-bound-exceeded"
     return "other|" + msg[:60]
